@@ -77,7 +77,7 @@ EXPORT bool _strishex_s_chk(const char *dest, rsize_t dmax,
         return (false);
     }
 
-    while (*dest && dmax) {
+    while (dmax && *dest) {
 
         if (((*dest >= '0') && (*dest <= '9')) ||
             ((*dest >= 'a') && (*dest <= 'f')) ||
